@@ -34,7 +34,7 @@ TEXT = {
  "C06": "Static decision of the exclusion clause only: text can reach a cue only under PID / stream-id / data-unit-id / framing / Hamming / magazine / receiving / row-range / start-box / parity guards; table well-formedness and the colour-code table. Page scheduling, timing and termination behaviour are not decided.",
  "C16": "Static decision of the agreement clauses: per format writer separator ∈ reader separators, millisecond scale 3, 2 or 3 written digits, each codec uses its own wrappers, STL formatter and parser share the frame-rate field. Truncation, canonical fields, monotonicity and the 30 fps frame loss are value-level and not decided.",
  "C07": "Static decision of the structural clauses of any-to-any conversion: dispatch tables of Open/Write agree, are case-insensitive and default to the invalid-extension error; writers refuse an empty list before writing; the CLI table equals the documented one; writers tolerate every optional part other readers leave unset (no unguarded dereference in the writers' closure). Cue preservation across format pairs is not decided.",
- "C08": "Static all-paths decision, over the closure of the six readers, Open, the five writers and the exported helpers, that none of the panic classes Go code can raise itself (nil dereference, nil-map store, index/slice out of range, integer division by zero, failing single-result type assertion, explicit panic/Fatal) is reachable, modulo 34 audited residue sites each with a written reason (some backed by supporting rules), and that every loop has a progress argument. Panics inside dependencies, memory exhaustion and the linear-time bound are not decided.",
+ "C08": "Static all-paths decision, over the closure of the six readers, Open, the five writers and the exported helpers, that none of the panic classes Go code can raise itself (nil dereference, nil-map store, index/slice out of range, integer division by zero, failing single-result type assertion, explicit panic/Fatal) is reachable, modulo 30 audited residue sites each with a written reason (some backed by supporting rules), and that every loop has a progress argument. Panics inside dependencies, memory exhaustion and the linear-time bound are not decided.",
  "C09": "Static all-paths decision of necessary structural clauses of Add: writes only StartAt, EndAt and the item slice; both boundaries get the same update; the in-place deletion rewinds the index; CLI sync → Add(-s). The arithmetic (exact d, clamp, which cues die) is not decided.",
  "C10": "Static decision of necessary structural clauses of Fragment: frame; new pieces are whole copies; Order() after every insertion; CLI. Where the cuts fall is not decided (the known last-listed-cue fault stays invisible).",
  "C11": "Static decision of necessary structural clauses of Unfragment: frame; delete-rewind; Order() before the scan; same text function on both cues reading every run. Merge semantics and the inverse law are not decided.",
@@ -86,9 +86,36 @@ TEXT_ADD = {
  "C19": " Dates supplied in the metadata are honoured independently of each other.",
  "C20": " Results never alias unexported package-level slices or maps.",
 }
+# round 6 (two more seeded changes per property, and 40 behaviour-preserving refactorings as must-stay-quiet controls)
+TECH_ADD2 = {
+ "C02": "zero-rule on the normalising tokenizer accessors (TagName/TagAttr/Token) in the WebVTT text parser; setting tables extracted through helper functions and closures, per call site",
+ "C05": "exact-truncation rules restricted to stl.go (values derived from Duration.Milliseconds are truncated quotients); frame rounding and block reading followed through helpers",
+ "C06": "partial evaluation of the row decoder with the byte fixed to each control code (colour and start-box tables read off the merge, whatever the spelling)",
+ "C07": "no case-sensitive test on a string derived from the file name in Open/Write; extension expression in either order of Ext and ToLower",
+ "C08": "numeric facts added: hull join at merges, value numbering of c*x, Index/LastIndex and regexp match-index contracts, guarded counter bounds, constructor-result field facts, literal-field non-nil facts, grow-only captured slices, the insert idiom; loop class for consumed slice registers",
+ "C09": "bulk-removal guard: a store that empties or truncates the list outside the per-cue loop must be guarded by a maximum over all cues; no deletion from a slice inside a range over it",
+ "C10": "a counted loop that inserts into the list re-reads the length on every trip",
+ "C13": "a work loop nested directly in another one is entered on every trip of the outer loop (cycle search avoiding the inner header)",
+ "C17": "bytes.HasPrefix(data, K) is a look-ahead of len(K) bytes; captured state of the split function; loops in the split function (havocked header phis with a checked len−i invariant); conditions compiled to phis",
+ "C18": "a shared return block that only merges results is resolved per incoming edge",
+ "C20": "captured variables' values are one step from their cell (no smearing over reachable memory); bound-method wrappers in scope",
+}
+TEXT_ADD2 = {
+ "C02": " The tag of a WebVTT cue text is taken from the raw token only (classes keep their case).",
+ "C05": " The frame field is not computed from a duration already truncated to milliseconds.",
+ "C07": " No decision on the file name is case-sensitive.",
+ "C09": " The list is never emptied in one go under a test of one designated cue's end; nothing is deleted from a slice while ranging over it.",
+ "C10": " The loop that inserts pieces re-reads the list length on every trip.",
+ "C13": " No cue is skipped by RemoveStyling on a test of its cue-level styling.",
+ "C17": " A byte-order-mark test in the split function waits for enough bytes before it decides.",
+}
 for k, v in TECH_ADD.items():
     TECH[k] += "; " + v
 for k, v in TEXT_ADD.items():
+    TEXT[k] += v
+for k, v in TECH_ADD2.items():
+    TECH[k] += "; " + v
+for k, v in TEXT_ADD2.items():
     TEXT[k] += v
 NOTE = "Assumes P0 (non-nil receivers/arguments), P1 (non-nil model elements, map keys = IDs), library contracts in internal/chk/contracts.go, and the fidelity of go/ssa + VTA (x/tools v0.29.0). Audited residue entries in rules/residue.txt are trusted."
 props = [json.loads(l) for l in open("/verif/properties.jsonl")]
